@@ -195,6 +195,30 @@ func runTamper(s *summary, k *h.Keys, root *h.Rng, n int, thorough bool, addCase
 				copies++
 			}
 		}
+		// one instance of every kind of catalogue rewrite on an object that is covered by a
+		// signature (the sample below may leave a kind out), under the default request and one
+		// narrowed request
+		var kindsAlways []h.Mutation
+		{
+			si, _ := h.DecodeImage(base)
+			byKind := map[string][]h.Mutation{}
+			var kinds []string
+			for _, m := range ms {
+				var di int
+				var rest string
+				if k, _ := fmt.Sscanf(m.What, "desc%d ", &di); k == 1 && di < len(si.Descs) && si.Descs[di].Used && si.Descs[di].Type != h.DataSignature {
+					rest = m.What[strings.Index(m.What, " ")+1:]
+					if byKind[rest] == nil {
+						kinds = append(kinds, rest)
+					}
+					byKind[rest] = append(byKind[rest], m)
+				}
+			}
+			for _, kd := range kinds {
+				kindsAlways = append(kindsAlways, h.Pick(r, byKind[kd]))
+			}
+			s.OpKinds["catalogue-kinds-always-tried"] += len(kinds)
+		}
 		ms = sample(r, ms, n)
 		ms = append(ms, h.MultiSite(r, base, min(n/3+4, 600))...)
 		for _, m := range always {
@@ -207,6 +231,17 @@ func runTamper(s *summary, k *h.Keys, root *h.Rng, n int, thorough bool, addCase
 			}
 		}
 		ms = append(ms, always...)
+		for _, m := range kindsAlways {
+			desc := fmt.Sprintf("base %d {%s}; %s", bi, spec.String(), m.What)
+			if nvs := narrowings(vo, base); len(nvs) > 0 {
+				nv := h.Pick(r, nvs)
+				if c := addCase(m.Img, base, nv, desc+" (narrowed)"); c != nil {
+					s.OracleRuns["tamper-accepted-implies-same-protected-view"]++
+					s.Oracle = append(s.Oracle, h.TamperFindings(base, c, fmt.Sprintf("%s (groups %v objects %v)", desc, nv.Groups, nv.Objects))...)
+				}
+			}
+		}
+		ms = append(ms, kindsAlways...)
 		ms = append(ms, h.ContentFlips(base)...)
 		for mi, m := range ms {
 			desc := fmt.Sprintf("base %d {%s}; %s", bi, spec.String(), m.What)
@@ -237,7 +272,7 @@ func runTamper(s *summary, k *h.Keys, root *h.Rng, n int, thorough bool, addCase
 			}
 		}
 		// every single-bit flip of the whole file, against the library and the protected view only
-		if thorough || bi == exhaustive && n >= 50 {
+		if thorough || bi == exhaustive && n >= 36 {
 			fs, cnt, acc := exhaustiveFlips(k, base, vo, fmt.Sprintf("base %d {%s}", bi, spec.String()))
 			s.Oracle = append(s.Oracle, fs...)
 			s.OracleRuns["exhaustive-single-bit-flips"] += cnt
